@@ -10,6 +10,7 @@ package main
 //   //@ checked NAME PROPS...: site=call F argN ; by=call G argM ; in=pkg ; except=...
 
 import (
+	"go/ast"
 	"fmt"
 	"go/constant"
 	"go/token"
@@ -279,6 +280,20 @@ func siteMatches(p *Program, pat string, in ssa.Instruction) (string, bool) {
 			}
 		}
 		return "call " + short, true
+	case "mapupdate":
+		// `mapupdate PATTERN`: m[k] = v on a map whose access path matches
+		mu, ok := in.(*ssa.MapUpdate)
+		if !ok || !pathMatches(valuePath(mu.Map), f[1]) {
+			return "", false
+		}
+		return valuePath(mu.Map) + "[" + valuePath(mu.Key) + "] = " + valuePath(mu.Value), true
+	case "range":
+		// `range PATTERN`: the start of a `for ... range X` over a map or string whose operand matches
+		rg, ok := in.(*ssa.Range)
+		if !ok || !pathMatches(valuePath(rg.X), f[1]) {
+			return "", false
+		}
+		return "range over " + valuePath(rg.X), true
 	case "lookup":
 		// `lookup KEYPATTERN`: a map read whose key has a matching access path
 		lk, ok := in.(*ssa.Lookup)
@@ -618,6 +633,24 @@ func valuePath(v ssa.Value) string {
 	case *ssa.Field:
 		st := x.X.Type().Underlying().(*types.Struct)
 		return valuePath(x.X) + "." + st.Field(x.Field).Name()
+	case *ssa.MakeMap, *ssa.MakeSlice:
+		// a freshly made map/slice is known by the local it was assigned to
+		if refs := v.Referrers(); refs != nil {
+			for _, r := range *refs {
+				if d, ok := r.(*ssa.DebugRef); ok && !d.IsAddr {
+					if id, ok := d.Expr.(*ast.Ident); ok {
+						return id.Name
+					}
+				}
+			}
+		}
+	case *ssa.Lookup:
+		return valuePath(x.X) + "[" + valuePath(x.Index) + "]"
+	case *ssa.Next:
+		if rg, ok := x.Iter.(*ssa.Range); ok {
+			return "next(" + valuePath(rg.X) + ")"
+		}
+		return "next(?)"
 	case *ssa.Extract:
 		if ta, ok := x.Tuple.(*ssa.TypeAssert); ok && x.Index == 0 {
 			return valuePath(ta)
